@@ -122,6 +122,22 @@ def run(pid, mod, tier, seed):
                                      json.dumps({"case": lines[i], "impl": impl[i], "model": model[i],
                                                  "n_disagreements": len(bad)})))
             violations += oracle_all(mod, suite, lines, impl)
+            if spec.get("incoq") and model is not None and gen_ok:
+                # the same sampled cases evaluated INSIDE Coq (vm_compute over the model's own definitions): checks the
+                # extraction and the hand-written OCaml driver glue against the kernel's evaluation
+                ic = spec["incoq"]
+                k = min(ic["sample"], len(lines))
+                try:
+                    got = vlib.run_incoq(pid, suite, ic["to_v"](lines[:k]))
+                    want = [ic["ints"](m) for m in model[:k]]
+                    badc = [i for i in range(k) if i >= len(got) or got[i] != want[i]]
+                    cov["suites"][spec.get("name", suite)]["evaluated_inside_coq"] = {"cases": k, "disagreements": len(badc)}
+                    if badc:
+                        i = badc[0]
+                        broken.append(Broken(f"incoq:{suite}", json.dumps({"case": lines[i], "extracted_model": model[i],
+                                                                            "vm_compute": got[i] if i < len(got) else None})))
+                except Broken as b:
+                    broken.append(b)
         cov["evaluations"] = evals
         cov["distinct_nontrivial"] = len(nontriv)
         cov["traces_validated_against_impl"] = evals
